@@ -443,6 +443,7 @@ def plan(ctx, prop="C04"):
             jobs.append(((prop, "chain", node, "future", "await", 2, 1), 1 if T else 0))
     for node in UNIQUE_NODES:
         jobs.append(((prop, "chain", node, "future", "burst", 3, 0, (1, 3, 2)), 1 if T else 0))
+        jobs.append(((prop, "chain", node, "future", "burst", 3, 0, (1, 2, 5)), 1))
         if T:
             jobs.append(((prop, "chain", node, "future", "burst", 4, 0, (1, 3, 2, 4)), 0))
     for node in PLAIN:
